@@ -391,6 +391,50 @@ def engine_level(ck):
         ck.violation(sig, "formula %r: %s reply is %r %r" % (formula, c[0], code, body), {"formula": formula, "name": name})
 
 
+# values a formula reads FROM ANOTHER COLUMN: what a typed formula column stores is not what its formula
+# returned (RefList columns keep an objtypes.RecordList, Ref columns an int, ...), and a second formula that
+# returns `$G` hands that stored form (wrapped again) to the encoder
+CHAINS = [
+  ("RefList:T", "T.lookupRecords()"), ("RefList:T", "T.lookupRecords(A=$A)"), ("RefList:T", "[1]"), ("RefList:T", "None"),
+  ("Ref:T", "T.lookupOne()"), ("Ref:T", "rec"), ("Ref:T", "1"),
+  ("ChoiceList", "['a', 'b']"), ("ChoiceList", "('a',)"), ("ChoiceList", "'a'"),
+  ("Date", "__import__('datetime').date(2020, 1, 1)"), ("DateTime:UTC", "__import__('datetime').datetime(2020, 1, 1)"),
+  ("Text", "1"), ("Int", "'x'"), ("Numeric", "True"), ("Bool", "1"), ("Any", "T.lookupRecords()"), ("Attachments", "[1]"),
+]
+CHAIN_READERS = ["$G", "[$G, $G]", "{'k': $G}", "list($G) if isinstance($G, (list, tuple)) else $G", "T.lookupRecords().G", "rec.G"]
+
+
+def engine_chains(ck):
+  chains = CHAINS if ck.tier != "quick" else CHAINS[:12]
+  for typ, formula in chains:
+    cols = [{"id": "A", "type": "Int"}, {"id": "G", "type": typ, "isFormula": True, "formula": formula}]
+    for i, rd in enumerate(CHAIN_READERS):
+      cols.append({"id": "F%d" % i, "type": "Any", "isFormula": True, "formula": rd})
+    calls = [["load_empty"], ["apply_user_actions", [["AddTable", "T", cols]]],
+             ["apply_user_actions", [["BulkAddRecord", "T", [None, None], {"A": [1, 1]}]]],
+             ["apply_user_actions", [["UpdateRecord", "T", 1, {"A": 2}]]],
+             ["fetch_table", "T"], ["fetch_table", "T", False]]
+    rp = {"chain": [typ, formula]}
+    try:
+      replies = sandbox_session(calls)
+    except BaseException as ex:
+      ck.violation("reply: sandbox loop dies for a formula reading a %s formula column" % typ.split(":")[0],
+                   "%s = %s: %s" % (typ, formula, type(ex).__name__), rp)
+      continue
+    ck.evaluated()
+    ck.count("engine_chains")
+    ck.nontrivial_case(["chain", typ, formula])
+    if len(replies) != len(calls):
+      ck.violation("reply: missing reply for a formula reading a %s formula column" % typ.split(":")[0],
+                   "%d replies for %d calls" % (len(replies), len(calls)), rp)
+      continue
+    for c, (code, body) in zip(calls, replies):
+      if code is not True:
+        ck.violation("reply: %s answered with EXC for a formula reading a %s formula column" % (c[0], typ.split(":")[0]),
+                     "G: %s = %r: reply is %r %r" % (typ, formula, code, str(body)[:300]), rp)
+        break
+
+
 def run(ck):
   ck.rule = ("adversarial value table (~330 atoms, ~90 containers: str/int/float/bytes subclasses, dicts with str, "
              "str-subclass, int, None, tuple keys, sets, ints around 2^31/2^53/2^64/10^400, NaN payloads, dates and "
@@ -459,6 +503,7 @@ def run(ck):
               % mism["diff"], mism)
   replay_witnesses(ck)
   engine_level(ck)
+  engine_chains(ck)
 
 
 WITNESSES = [
@@ -498,6 +543,12 @@ def replay(ck, rp):
         if dd and not bad:
           ck.broken("correspondence objtypes.encode_object/decode_object vs Grist.PyVal.encode/decode", dd, r)
     ck.nontrivial_case(r["spec"])
+  elif "chain" in r:
+    global CHAINS
+    saved, CHAINS = CHAINS, [tuple(r["chain"])]
+    tier, ck.tier = ck.tier, "thorough"
+    engine_chains(ck)
+    CHAINS, ck.tier = saved, tier
   elif "formula" in r:
     calls = [["load_empty"],
              ["apply_user_actions", [["AddTable", "T", [{"id": "A", "type": "Int"}, {"id": "F", "type": "Any", "isFormula": True, "formula": r["formula"]}]]]],
